@@ -292,6 +292,29 @@ def check_states(seed, count):
                         viols.append(v('values', f'state:{which}:{fname}', f'{which} written as {fname} {f!r} for {n} players: '
                                        f'{"refused " + d if len(d) < 40 else "a different state"} (explicit {l})',
                                        ['state', which, fname, l, n]))
+            # one layout object used for two tables (a game object creates its states from the same arguments):
+            # the caller's object is left as it was, and the second table gets the layout the explicit list gives
+            for which, l in (('antes', antes), ('blinds', blinds), ('stacks', stacks)):
+                m = rng.randint(2, n)
+                obj = list(l)
+                small = dict(antes=tuple(antes[:m]), blinds=tuple(blinds[:m]), stacks=tuple(stacks[:m]))
+                small[which] = obj
+                args = dict(antes=antes, blinds=blinds, stacks=stacks)
+                args[which] = obj
+                n_checked += 1
+                orig, after = list(l), None
+                try:
+                    _state(small['antes'], small['blinds'], small['stacks'], m)
+                    after = list(obj)
+                    d = impl.digest(_state(args['antes'], args['blinds'], args['stacks'], n))
+                except Exception as ex:  # noqa: BLE001
+                    after, d = after if after is not None else list(obj), type(ex).__name__
+                changed = after != orig
+                if d != base:
+                    viols.append(v('values', f'state:{which}:list_reused', f'{which} given as the list {orig} to a table of {m} and '
+                                   f'then of {n} players: ' + (f'after the first table the list was {after}; ' if changed else '') +
+                                   (f'refused {d}' if len(d) < 40 else ('a different state' if d != base else 'same state')),
+                                   ['reuse', which, l, m, n, antes, blinds, stacks]))
             # cards: object vs list vs text
             s1, s2, s3 = (_state(antes, blinds, stacks, n) for _ in range(3))
             c = rng.choice(cards)
@@ -373,6 +396,27 @@ def replay(inp):
         except Exception as ex:  # noqa: BLE001
             got = type(ex).__name__
         return None if got == list(explicit) else f'{wname} writing of {explicit} cleans to {got}'
+    if kind == 'reuse':
+        _, which, l, m, n, antes, blinds, stacks = inp
+        with warnings.catch_warnings():
+            warnings.simplefilter('ignore')
+            base = impl.digest(_state(antes, blinds, stacks, n))
+            obj = list(l)
+            small = dict(antes=tuple(antes[:m]), blinds=tuple(blinds[:m]), stacks=tuple(stacks[:m]))
+            small[which] = obj
+            args = dict(antes=antes, blinds=blinds, stacks=stacks)
+            args[which] = obj
+            after = None
+            try:
+                _state(small['antes'], small['blinds'], small['stacks'], m)
+                after = list(obj)
+                d = impl.digest(_state(args['antes'], args['blinds'], args['stacks'], n))
+            except Exception as ex:  # noqa: BLE001
+                after, d = after if after is not None else list(obj), type(ex).__name__
+        if d != base:
+            return (f'{which} given as the list {l} to a table of {m} and then of {n} players: after the first table the '
+                    f'list was {after}, the second state is {"the same" if d == base else "different / refused"}')
+        return None
     if kind == 'parse':
         t = inp[1]
         return None   # text cases are re-run by the full check; the replay file documents the input
